@@ -252,6 +252,26 @@ def generate(ck):
             elif st["k"] == "Create":
                 out |= {where(p) for p in ps} or {"none"}
         return out
+    # tree 8: a cut from beneath two Merkle cells (root of level 2, a kept pruned branch of mask 2, no Merkle cell): every script
+    exoH = [v for v in exo if v["xtree"] == 8]
+    exo = [v for v in exo if v["xtree"] != 8]
+    def prunes_the_level2_branch(v):
+        """a Prune AT the kept pruned branch of mask 2 (position 1.0): keeping it (the specification's rule for level-1 branches) and
+        replacing it by 01 01 || its level-0 hash (what the reference implementation does) commit to the same hash: not judged"""
+        paths = {0: ()}
+        for st in v["script"]:
+            if st["k"] == "Cursor":
+                paths = {0: ()}
+            elif st["k"] == "Ref":
+                paths[st["nh"]] = paths[st["h"]] + (st["i"],)
+            elif st["k"] == "Prune" and paths[st["h"]] == (1, 0):
+                return True
+        return False
+    exoH = [v for v in exoH if not prunes_the_level2_branch(v)]
+    for v in exoH:
+        v["src"] = "gen:cut-from-beneath-merkle-cells:tree8"
+    if len(exoH) < 20 or not any(sum(1 for st in v["script"] if st["k"] == "Prune") for v in exoH):
+        raise Infra("generator: too few scripts on the level-2 source (%d)" % len(exoH))
     for v in exo:
         v["src"] = "gen:merkle-below-root:tree%d" % v["xtree"]
         v["mclass"] = merkle_class(v)
@@ -312,7 +332,7 @@ def generate(ck):
                              "walk_two_step": len(walks2), "dict_two_step": len(dicts2),
                              "walk_hold": len(hold), "walk_hold_prune_through_held_value_depth>=2": len(holdA),
                              "walk_merkle_cell_below_root": len(exo) + len(exoD), "walk_source_with_multi_level_pruned_branches": len(exoD), "walk_merkle_prune_strictly_beneath": len(exoA),
-                             "walk_merkle_prune_at_or_above": len(exoB), "walk_merkle_prune_beside_or_none": len(exoC)}
+                             "walk_merkle_prune_at_or_above": len(exoB), "walk_merkle_prune_beside_or_none": len(exoC), "walk_source_cut_from_beneath_merkle_cells_level_2": len(exoH)}
     def later_request_after_prune(v):      # a session that starts after an earlier session pruned something
         seen = False
         for st in v["script"]:
@@ -324,19 +344,19 @@ def generate(ck):
     seq = [v for v in walks if later_request_after_prune(v)]
     other = [v for v in walks if not later_request_after_prune(v)]
     ck.extra["generated"]["walk_dfs_with_session_after_prune"] = len(seq)
-    for l in (seq, other, free, twin, plain, w2a, w2b, dicts2, holdA, holdB, exoA, exoB, exoC, exoD):
+    for l in (seq, other, free, twin, plain, w2a, w2b, dicts2, holdA, holdB, exoA, exoB, exoC, exoD, exoH):
         ck.rng.shuffle(l)
     if q:
         seq, other, free, twin, plain = seq[:200], other[:80], free[:80], twin[:100], plain[:150]
         w2a, w2b, dicts2 = w2a[:420], w2b[:60], dicts2[:320]
         holdA, holdB = holdA[:260], holdB[:100]
-        exoA, exoB, exoC, exoD = exoA[:160], exoB[:110], exoC[:50], exoD[:75]
+        exoA, exoB, exoC, exoD, exoH = exoA[:160], exoB[:110], exoC[:50], exoD[:75], exoH[:60]
     else:
         seq, other, free = seq[:7000], other[:3000], free[:4000]
         w2a, w2b, dicts2 = w2a[:12000], w2b[:1500], dicts2[:8000]
         holdA, holdB = holdA[:9000], holdB[:3000]
         exoA, exoB, exoC = exoA[:6000], exoB[:4000], exoC[:1500]
-    vecs = seq + other + free + twin + plain + w2a + w2b + dicts2 + holdA + holdB + exoA + exoB + exoC + exoD
+    vecs = seq + other + free + twin + plain + w2a + w2b + dicts2 + holdA + holdB + exoA + exoB + exoC + exoD + exoH
     for i, v in enumerate(vecs):
         v["vec"] = i
         # every third vector: the cells are read before the prover is built (walks: nothing reset afterwards; dictionaries:
